@@ -558,7 +558,15 @@ class Interp:
         return False
 
     def st_With(self, s, env):
-        raise Unsupported('with statement')
+        # `with warnings.catch_warnings():` / `with numpy.errstate(...):` only change how warnings are shown: the body is
+        # executed as is (same exclusion as warnings.filterwarnings, DESIGN 2.1).  Any other context manager: unsupported.
+        for item in s.items:
+            ce = item.context_expr
+            ok = isinstance(ce, ast.Call) and isinstance(ce.func, ast.Attribute) and isinstance(ce.func.value, ast.Name) and \
+                (ce.func.value.id, ce.func.attr) in (('warnings', 'catch_warnings'), ('numpy', 'errstate'), ('np', 'errstate'))
+            if not ok or item.optional_vars is not None:
+                raise Unsupported('with statement')
+        self.exec_block(s.body, env)
 
     # ---------------------------------------------------------------- loops
     def _loop_key(self, s, env):
